@@ -52,10 +52,261 @@ class _Future(real.Future):
     pass
 
 
+# ---------------------------------------------------------------------------------------------
+# task footprints: the partial-order argument ("tasks write only memory they allocate themselves",
+# DESIGN.md 1.5) is checked on every execution that runs with FOOTPRINT.enabled: around every task
+# body all array memory reachable from the arguments / closures of ALL tasks of the pool, from the
+# results of the tasks already finished and from the library's module-level state is compared
+# element by element.  Reported (sound for real threads, where the bodies do overlap in time):
+#   * write-write: two tasks of one pool change the same element of shared memory,
+#   * a task changes the result array of another, finished task.
+# Disjoint writes into one shared output array are NOT reported.
+# ---------------------------------------------------------------------------------------------
+class _Footprint:
+    def __init__(self):
+        self.enabled = False
+        self.conflicts = []  # human-readable, deduplicated by the caller
+        self.tasks_checked = 0
+        self.arrays_tracked = 0
+        self.elements_written = 0
+
+    def reset(self, enabled=None):
+        if enabled is not None:
+            self.enabled = enabled
+        self.conflicts = []
+        self.tasks_checked = self.arrays_tracked = self.elements_written = 0
+
+
+FOOTPRINT = _Footprint()
+
+
+_LIBMODS = [0, []]
+
+
+def _lib_modules():
+    import sys
+
+    if _LIBMODS[0] != len(sys.modules):
+        _LIBMODS[1] = [m for n, m in list(sys.modules.items())
+                       if (n == "groupby_lib" or n.startswith("groupby_lib.")) and m is not None]
+        _LIBMODS[0] = len(sys.modules)
+    return _LIBMODS[1]
+
+
+def _reach(obj, out, seen, depth=0):
+    """Collect (label-free) every ndarray / Arrow buffer reachable from obj (bounded walk)."""
+    import functools
+    import types as _t
+
+    import numpy as np
+
+    if obj is None or depth > 6 or isinstance(obj, (str, bytes, int, float, bool, complex, type)):
+        return
+    oid = id(obj)
+    if oid in seen:
+        return
+    seen.add(oid)
+    if isinstance(obj, np.ndarray):
+        out.append(obj)
+        return
+    mod = type(obj).__module__ or ""
+    try:
+        if mod.startswith("pandas"):
+            import pandas as pd
+
+            if isinstance(obj, pd.DataFrame):
+                for j in range(obj.shape[1]):
+                    _reach(obj.iloc[:, j]._values, out, seen, depth + 1)
+                _reach(obj.index, out, seen, depth + 1)
+                return
+            if isinstance(obj, pd.MultiIndex):
+                for c in obj.codes:
+                    _reach(np.asarray(c), out, seen, depth + 1)
+                return
+            if isinstance(obj, (pd.Series, pd.Index)):
+                _reach(obj._values, out, seen, depth + 1)
+                if isinstance(obj, pd.Series):
+                    _reach(obj.index, out, seen, depth + 1)
+                return
+            if isinstance(obj, pd.Categorical):
+                _reach(obj._ndarray, out, seen, depth + 1)
+                return
+            for attr in ("_pa_array", "_ndarray", "_data", "_mask"):
+                if hasattr(obj, attr):
+                    _reach(getattr(obj, attr), out, seen, depth + 1)
+            return
+        if mod.startswith("pyarrow"):
+            import pyarrow as pa
+
+            if isinstance(obj, pa.ChunkedArray):
+                for c in obj.chunks:
+                    _reach(c, out, seen, depth + 1)
+            elif isinstance(obj, pa.Array):
+                for b in obj.buffers():
+                    if b is not None and b.size:
+                        out.append(np.frombuffer(b, dtype=np.uint8))
+            return
+        if mod.startswith("polars"):
+            _reach(obj.to_arrow(), out, seen, depth + 1)
+            return
+    except Exception:
+        return
+    if isinstance(obj, dict):
+        for v in list(obj.values())[:64]:
+            _reach(v, out, seen, depth + 1)
+        return
+    if isinstance(obj, (list, tuple, set, frozenset)) or mod.startswith("numba.typed"):
+        try:
+            for v in list(obj)[:64]:
+                _reach(v, out, seen, depth + 1)
+        except Exception:
+            pass
+        return
+    if isinstance(obj, functools.partial):
+        _reach(obj.func, out, seen, depth + 1)
+        _reach(obj.args, out, seen, depth + 1)
+        _reach(obj.keywords, out, seen, depth + 1)
+        return
+    if isinstance(obj, _t.MethodType):
+        _reach(obj.__self__, out, seen, depth + 1)
+        _reach(obj.__func__, out, seen, depth + 1)
+        return
+    if isinstance(obj, _t.FunctionType):
+        _reach(obj.__defaults__, out, seen, depth + 1)
+        _reach(obj.__kwdefaults__, out, seen, depth + 1)
+        for cell in obj.__closure__ or ():
+            try:
+                _reach(cell.cell_contents, out, seen, depth + 1)
+            except ValueError:
+                pass
+        return
+    if hasattr(obj, "py_func"):  # numba dispatcher
+        _reach(obj.py_func, out, seen, depth + 1)
+        return
+    if mod.startswith("groupby_lib") and hasattr(obj, "__dict__"):
+        _reach(vars(obj), out, seen, depth + 1)
+
+
+_GLOBALS_CACHE = {}  # module name -> (fingerprint, [objects worth walking])
+
+
+def _watch_list(m):
+    """Module-level objects that can hold array state: data globals, class attributes, and
+    functions carrying defaults / closures.  Recomputed only when the module's namespace changes
+    (identity of every bound object), walked on every call (their contents may change in place)."""
+    import types as _t
+
+    d = vars(m)
+    fpr = hash(tuple((k, id(v)) for k, v in d.items()))
+    hit = _GLOBALS_CACHE.get(m.__name__)
+    if hit is not None and hit[0] == fpr:
+        return hit[1]
+
+    def func_state(f):
+        f = f.__func__ if isinstance(f, (staticmethod, classmethod)) else f
+        f = getattr(f, "py_func", f)
+        if not isinstance(f, _t.FunctionType):
+            return None
+        simple = (type(None), str, bytes, int, float, bool, complex, type, _t.FunctionType,
+                  _t.BuiltinFunctionType, _t.ModuleType)
+        vals = list(f.__defaults__ or ()) + list((f.__kwdefaults__ or {}).values())
+        if any(not isinstance(v, simple) and not hasattr(v, "py_func") for v in vals):
+            return f
+        for cell in f.__closure__ or ():
+            try:
+                v = cell.cell_contents
+            except ValueError:
+                return f
+            if not isinstance(v, simple) and not hasattr(v, "py_func"):
+                return f
+        return None
+
+    watch = []
+    for name, val in list(d.items()):
+        if name.startswith("__") or isinstance(val, _t.ModuleType):
+            continue
+        if isinstance(val, type):
+            if (val.__module__ or "").startswith("groupby_lib"):
+                for k, v in list(vars(val).items()):
+                    if k.startswith("__") or isinstance(v, property):
+                        continue
+                    fs = func_state(v)
+                    if fs is not None:
+                        watch.append(fs)
+                    elif not callable(v) and not isinstance(v, (staticmethod, classmethod, str, int, float)) \
+                            and type(v).__name__ not in ("cached_property", "_abc_data", "member_descriptor",
+                                                         "getset_descriptor"):
+                        watch.append(v)
+            continue
+        if isinstance(val, _t.FunctionType) or hasattr(val, "py_func"):
+            if str(getattr(val, "__module__", "")).startswith("groupby_lib"):
+                fs = func_state(val)
+                if fs is not None:
+                    watch.append(fs)
+            continue
+        if callable(val) or isinstance(val, (str, int, float, bool, bytes)):
+            continue
+        watch.append(val)
+    _GLOBALS_CACHE[m.__name__] = (fpr, watch)
+    return watch
+
+
+def _globals_arrays(out, seen):
+    for m in _lib_modules():
+        for val in _watch_list(m):
+            _reach(val, out, seen, 3)
+
+
+def _elem_addr(a):
+    import numpy as np
+
+    base = a.__array_interface__["data"][0]
+    off = np.zeros(a.shape, dtype=np.int64)
+    for ax, (n, st) in enumerate(zip(a.shape, a.strides)):
+        sh = [1] * a.ndim
+        sh[ax] = n
+        off = off + (np.arange(n, dtype=np.int64) * st).reshape(sh)
+    return (base + off).ravel()
+
+
+def _snapshot(arrs):
+    import numpy as np
+
+    snap = []
+    for a in arrs:
+        if a.dtype.kind == "O":
+            snap.append([id(x) for x in a.ravel().tolist()])
+        else:
+            snap.append(np.array(a, copy=True, order="C"))
+    return snap
+
+
+def _changed_addresses(arrs, snap):
+    import numpy as np
+
+    changed = set()
+    for a, b in zip(arrs, snap):
+        if a.size == 0:
+            continue
+        if a.dtype.kind == "O":
+            now = [id(x) for x in a.ravel().tolist()]
+            ch = np.array([x != y for x, y in zip(now, b)], dtype=bool)
+        else:
+            cur = np.ascontiguousarray(a)
+            ch = (cur.reshape(-1).view(np.uint8).reshape(a.size, a.itemsize)
+                  != b.reshape(-1).view(np.uint8).reshape(a.size, a.itemsize)).any(axis=1)
+        if ch.any():
+            changed.update(_elem_addr(a)[ch].tolist())
+    return changed
+
+
 class ControlledExecutor:
     def __init__(self, max_workers=None, **kw):
         self.pending = []
         self.n_submitted = 0
+        self._fp = None
+        self.all = []  # every task of this pool, in submission order (footprint check)
+        self.writes = {}  # task index -> set of element addresses it changed
 
     def __enter__(self):
         return self
@@ -70,6 +321,8 @@ class ControlledExecutor:
         f._ex = self
         self.pending.append(f)
         self.n_submitted += 1
+        f._idx = len(self.all)
+        self.all.append(f)
         return f
 
     def map(self, fn, *iterables, timeout=None, chunksize=1):
@@ -80,10 +333,62 @@ class ControlledExecutor:
     def _run_one(self, f):
         fn, args, kw = f._task
         self.pending.remove(f)
+        fp = FOOTPRINT.enabled and len(self.all) > 1
+        if fp:
+            st = self._fp
+            if st is None or st["ntasks"] != len(self.all):
+                shared, seen = [], set()
+                for g in self.all:
+                    _reach(g._task, shared, seen)
+                _globals_arrays(shared, seen)
+                st = self._fp = dict(shared=shared, seen=seen, res_of={}, ntasks=len(self.all))
+                for g in self.all:
+                    if g.done() and g.exception() is None:
+                        k = len(shared)
+                        _reach(g.result(), shared, seen)
+                        for j in range(k, len(shared)):
+                            st["res_of"][j] = g._idx
+            shared, res_of = st["shared"], st["res_of"]
+            snap = _snapshot(shared)
+            tracked_ids = {(a.__array_interface__['data'][0], a.shape, a.strides) for a in shared}
         try:
             f.set_result(fn(*args, **kw))
         except BaseException as e:  # noqa
             f.set_exception(e)
+        if fp:
+            FOOTPRINT.tasks_checked += 1
+            FOOTPRINT.arrays_tracked += len(shared)
+            name = getattr(fn, "__name__", type(fn).__name__)
+            mine = _changed_addresses(shared, snap)
+            # module-level arrays that exist only since this task ran (a lazily created scratch
+            # buffer) count as written by it
+            fresh = []
+            _globals_arrays(fresh, set())
+            for a in fresh:
+                key = (a.__array_interface__['data'][0], a.shape, a.strides)
+                if a.size and key not in tracked_ids:
+                    mine.update(_elem_addr(a).tolist())
+                    tracked_ids.add(key)
+                    shared.append(a)  # tracked from now on (a later task changing it conflicts)
+            FOOTPRINT.elements_written += len(mine)
+            if res_of:
+                idxs = sorted(res_of)
+                hit = _changed_addresses([shared[j] for j in idxs], [snap[j] for j in idxs])
+                if hit:
+                    FOOTPRINT.conflicts.append(
+                        f"task {f._idx} ({name}) changed the result array of another, finished task")
+            for other, w in self.writes.items():
+                both = mine & w
+                if both:
+                    FOOTPRINT.conflicts.append(
+                        f"tasks {other} and {f._idx} ({name}) of one pool both changed the same "
+                        f"{len(both)} element(s) of shared memory (write-write conflict)")
+            self.writes[f._idx] = mine
+            if f.exception() is None:
+                k = len(shared)
+                _reach(f.result(), shared, st["seen"])
+                for j in range(k, len(shared)):
+                    res_of[j] = f._idx
 
     def shutdown(self, wait=True, **kw):
         if self.n_submitted:
